@@ -30,6 +30,8 @@ Definition rt_init : rt := mkRt [] [] [] [] [] [] [] [] 0.
 
 Inductive rop :=
 | OpenUp (sid alias : N) (unrel hasU : bool)   (* openUpstream after an open/resume response; QoS unreliable? unreliable transport present? *)
+| OpenUpRefused (sid alias : N)                (* an open/resume response with a failure code: nothing is registered
+                                                  (it used to register the response's zero alias: F42, /repo af370b2) *)
 | SubAck (alias : N)                           (* SubscribeUpstreamChunkAck *)
 | CloseUp (sid : N)                            (* table part of SendUpstreamCloseRequest *)
 | SendChunk (alias : N)                        (* SendUpstreamChunk: which writer *)
@@ -58,6 +60,7 @@ Definition rstep (s : rt) (o : rop) : rt * rres :=
             (insert alias (if unrel && hasU then 1 else 0) (t_writers s))
             (t_dps s) (t_dpsU s) (t_ackc s) (t_meta s) (t_dnalias s) (t_next s + 1),
        Created (t_next s))
+  | OpenUpRefused _ _ => (s, Done)
   | SubAck alias => (s, match lookup alias (t_acks s) with Some ch => Sub ch | None => NoSub end)
   | CloseUp sid =>
       match lookup sid (t_upalias s) with
@@ -112,6 +115,7 @@ Fixpoint rrun_rt (s : rt) (ops : list rop) : rt * list rres :=
 (* the alias an operation is addressed to, given the tables (close operations name a stream id) *)
 Definition op_alias (s : rt) (o : rop) : option N :=
   match o with
+  | OpenUpRefused _ _ => None
   | OpenUp _ a _ _ | SubAck a | SendChunk a | SubChunk a _ _ | SubAckC a | SubMeta a _ | DnAlias _ a
   | Recv _ a | RecvMeta a _ => Some a
   | CloseUp sid => lookup sid (t_upalias s)
